@@ -20,8 +20,12 @@ def make_post(tier):
         rnd = random.Random(common.seed())
         cases = r.corpus_cases(tier, rnd, 1 if tier == 'quick' else 4)
         obs = pool.run_cases(cases, init_name='datetime', batch=40, timeout=20.0, progress=PROP + '/triples')
-        allc = cases + [{'api': 'datetime', 'text': c['text'], 'culture': c['culture'], 'ref': c['ref'], 'src': 'generated'} for c in gen_cases]
-        allo = obs + list(gen_obs)
+        g, st = flow.generate(work, 'Gen_Ranges', 'Gen_Ranges.cfg')
+        rcases = [{'api': 'datetime', 'text': s_['c']['text'], 'culture': s_['c']['culture'], 'ref': s_['c']['ref'], 'src': 'generated:Gen_Ranges'} for s_ in st]
+        rcases.sort(key=lambda c: (c['text'], c['ref']))
+        robs = pool.run_cases(rcases, init_name='datetime', batch=40, timeout=20.0)
+        allc = cases + rcases + [{'api': 'datetime', 'text': c['text'], 'culture': c['culture'], 'ref': c['ref'], 'src': 'generated'} for c in gen_cases]
+        allo = obs + robs + list(gen_obs)
         events, res = r.judge_cases(work, allc, allo, 'triple')
         ok = r.selftest(work, events, 'triple')
         if ok is not True:
@@ -41,7 +45,8 @@ def run(tier):
         case_of=d.case_of, trace=d.TRACE, key_of=key_of, corruptors=d.CORRUPTORS, init_name='datetime', batch=20, timeout=20.0,
         rule='(1)(2) cases = terminal states of Gen_DurRange (%s): N x {second..year} durations with value = N x unit seconds computed on digit strings; ordered pairs of '
              'boundary dates in from-to / between-and phrasing (ISO and m/d/yyyy), time pairs in am/pm and 24-hour form; replayed into recognize_datetime, judged by TLC (Trace_DT). '
-             '(3) every range entity recorded from all Python-supported Specs date-time inputs (all cultures, own and seeded references) and from the generated cases is judged by '
+             '(3) every range entity recorded from all Python-supported Specs date-time inputs (all cultures, own and further references), from the range expressions of Gen_Ranges '
+             '(date word x clock-time pairs that wrap midnight, coincide or are reversed; reversed and equal date pairs) and from the generated cases is judged by '
              'TLC with DurRange!TripleVerdict (Trace_Resolution, mode triple)' % tier,
         assumptions=d.ASSUME, exhaustive=True, post=make_post(tier))
 
